@@ -31,7 +31,7 @@ def check(repo, res, tier):
     res.rule("R-WALK", "on models with lower, upper, two-sided and absent limits every recorded state is the one the limit-respecting walk gives: a step that "
              "would leave the limits is not taken and leaves state and time unchanged")
     X.check_checkjump(repo, res)
-    n = X.check_walks(repo, res)
+    n = X.check_walks(repo, res, tier=tier)
     res.floor("walk scenarios interpreted", n, 15)
     # the limits handed to the steppers are the declared ones: _add_list_attr_with_limits interpreted on every declaration form
     _check_defaults(repo, res)
